@@ -80,6 +80,36 @@ def stepSt (s : St) (ws : List String) : St × String :=
       let other : Iter (V2 U64) := ⟨⟨dy, dx⟩, it.cur⟩
       let (it2, r3) := it.preDec
       (s, s!"{c1} {r.cur} {it.cur} {r2.cur} {bit (Iter.eq it e)} {bit (Iter.ne it e)} {bit (Iter.ne it b)} {bit (Iter.eq it other)} {bit (Iter.eq it it)} {showV2 (reshape2 it.dims it.cur)} {it2.cur} {r3.cur} {(it2.jumpTo st).cur}")
+    -- every way of moving an iterator, each followed by a dereference of the iterator that was moved (and of what the
+    -- operator returned): the element designated is always `reshape(current())`
+    | "itq2", some [dx, dy, st, n], _ =>
+      let d : V2 U64 := ⟨dx, dy⟩
+      let sh (i : Iter (V2 U64)) : String := s!"{i.cur}:{showV2 (reshape2 i.dims i.cur)}"
+      let it : Iter (V2 U64) := ⟨d, st⟩
+      let (a, ra) := it.preDec
+      let (b, rb) := a.preInc
+      let (c, rc) := b.postDec
+      let (e, re) := c.postInc
+      let f := e.addN n
+      let g := f.subN n
+      let h := g.addIt (⟨d, n⟩ : Iter (V2 U64))
+      let k := h.subIt (⟨d, n⟩ : Iter (V2 U64))
+      let j := k.jumpTo n
+      (s, " ".intercalate [sh a, sh ra, sh b, sh rb, sh c, sh rc, sh e, sh re, sh f, sh g, sh h, sh k, sh j])
+    | "itq3", some [dx, dy, dz, st, n], _ =>
+      let d : V3 U64 := ⟨dx, dy, dz⟩
+      let sh (i : Iter (V3 U64)) : String := s!"{i.cur}:{showV3 (reshape3 i.dims i.cur)}"
+      let it : Iter (V3 U64) := ⟨d, st⟩
+      let (a, ra) := it.preDec
+      let (b, rb) := a.preInc
+      let (c, rc) := b.postDec
+      let (e, re) := c.postInc
+      let f := e.addN n
+      let g := f.subN n
+      let h := g.addIt (⟨d, n⟩ : Iter (V3 U64))
+      let k := h.subIt (⟨d, n⟩ : Iter (V3 U64))
+      let j := k.jumpTo n
+      (s, " ".intercalate [sh a, sh ra, sh b, sh rb, sh c, sh rc, sh e, sh re, sh f, sh g, sh h, sh k, sh j])
     | "itp3", some [dx, dy, dz, st], _ =>
       let d : V3 U64 := ⟨dx, dy, dz⟩
       let it : Iter (V3 U64) := ⟨d, st⟩
